@@ -88,7 +88,7 @@ contract(
     props="C04",
     params={"x": A2("D", cols=6)},
     ghosts={"n": PYINT, "nd": PYINT, "NB": PYINT, "wit": A1(), "card": PYINT, "W0": PYINT, "H0": PYINT},
-    i64=False,
+    i64=False, npscalars=True,
     attrs={"inst.n_items": "n", "inst.n_different_items": "nd", "inst.bin_width": "W0", "inst.bin_height": "H0",
            "x.n_bins": "NB", "self.instance": "None", "x.instance": "None", "inst.dtype": "None", "x.dtype": "None"},
     requires=["card == 0"],
@@ -134,7 +134,7 @@ contract(
     params={"x": A2("D", cols=6)},
     ghosts={"n": PYINT, "nd": PYINT, "NB": PYINT, "wit": A1(), "card": PYINT, "W0": PYINT, "H0": PYINT,
             "inst0": A2("I", cols=3), "wit0": A1()},
-    i64=False,
+    i64=False, npscalars=True,
     no_raise=True,
     attrs={"inst.n_items": "n", "inst.n_different_items": "nd", "inst.bin_width": "W0", "inst.bin_height": "H0",
            "x.n_bins": "NB", "self.instance": "None", "x.instance": "None", "inst.dtype": "None", "x.dtype": "None"},
